@@ -29,7 +29,7 @@ m = {
     'setup_cmd': './check --setup',
     'hooks': {
         'guard': 'cfg(kani)',
-        'enable': 'cargo kani sets cfg(kani) itself; every hook is `#[cfg(kani)] mod verif_kani { include!("/verif/kani/incrate/<hook>.rs"); }` appended to a source file, plus one check-cfg lint stanza in /repo/Cargo.toml. No other build (cargo build/test/nextest) sees them.',
+        'enable': 'cargo kani sets cfg(kani) itself; every hook is `#[cfg(kani)] mod verif_kani { include!("/verif/build/kani-gen/<hook>.harness.rs"); }` appended to a source file (the included file is the per-run copy of /verif/kani/incrate/<hook>.rs that every check writes before building), plus one check-cfg lint stanza in /repo/Cargo.toml. No other build (cargo build/test/nextest) sees them.',
         'baseline_off_cmd': 'cd /repo && cargo nextest run --workspace --no-fail-fast --tool-config-file pb:/w/lib/nextest.toml --profile pb --test-threads 8 --offline && python3 /verif/tools/baseline_compare.py',
         'source_commits': hook_commits,
         'add_only': True,
